@@ -62,4 +62,170 @@ def lookup_follows_rule_statement : Prop :=
       | some true => a.offset = r.dstOff ∧ a.isDst = true
       | some false => a.offset = r.stdOff ∧ a.isDst = false
 
+/-! ## what can be proved
+
+The statement above is FALSE (`lookup_follows_rule_counterexample`: nothing ties `y0` to the last
+recorded transition, so the 402 tabulated years can all lie before it) and, where it is not false,
+nearly VACUOUS (`extendedBy_degenerate`: `ExtendedBy` makes the generated entries literal
+`yearPair` values, whose civil columns are the 1970-01-01 defaults, so `CivilCols` forces every
+generated entry of a type to the one instant `-offset`: at most two generated entries).  Proved
+instead: the same conclusion for tables whose generated part agrees with the year pairs in the two
+columns `ExtendTransitions` writes (`ExtendedKeys`), under the assumption `Rg.Regular`. -/
+
+/-- the two columns `ExtendTransitions` writes -/
+def cols (x : Transition) : Int × Nat := (x.unixTime, x.typeIndex)
+
+/-- `ExtendedBy` with the generated part compared in the time and type columns only (`Load` fills
+the civil columns of all entries after `ExtendTransitions`) -/
+def ExtendedKeys (z : Zone) (r : Rule) (rec : List Transition) (y0 : Int) (dstTi stdTi : Nat) : Prop :=
+  rec ≠ [] ∧ z.extended = true ∧
+  (∃ gen : List Transition, z.transitions.toList = rec ++ gen ∧
+    gen.map cols = ((List.range 402).flatMap (fun (k : Nat) =>
+      C01Rule.yearPair { dstStart := ⟨some r.sd, some r.st⟩, dstEnd := ⟨some r.ed, some r.et⟩ } dstTi stdTi
+        ((rec.getLast?.map (·.unixTime)).getD 0) r.stdOff r.dstOff (y0 + (k : Int)))).map cols) ∧
+  (typ z dstTi).utcOffset = r.dstOff ∧ (typ z dstTi).isDst = true ∧
+  (typ z stdTi).utcOffset = r.stdOff ∧ (typ z stdTi).isDst = false ∧
+  DateInGrammar r.sd ∧ DateInGrammar r.ed
+
+/-- lookup(t) beyond the recorded transitions follows the rule at t itself, under the regularity
+assumption `Rg.Regular` (Cctz/Proofs/RuleGlue.lean): at least one rule instant of year y0+1 and
+every rule instant of the years y0+2 … y0+401 is later than the last recorded transition -/
+def lookup_follows_rule_partial_statement : Prop :=
+  ∀ (z : Zone) (r : Rule) (rec : List Transition) (y0 : Int) (dstTi stdTi : Nat) (h : Nat) (t : Int),
+    TableWF z → CivilCols z → ExtendedKeys z r rec y0 dstTi stdTi →
+    Rg.Regular r.sd r.st r.ed r.et r.stdOff r.dstOff y0 ((rec.getLast?.map (·.unixTime)).getD 0) →
+    (rec.getLast?.map (·.unixTime)).getD 0 ≤ t →
+    ∃ k, RuleKindAt r y0 ((rec.getLast?.map (·.unixTime)).getD 0) t k ∧
+      let a := (breakTime z h t).val.1
+      match k with
+      | none => a.offset = (typ z ((rec.getLast?.map (·.typeIndex)).getD 0)).utcOffset ∧
+                a.isDst = (typ z ((rec.getLast?.map (·.typeIndex)).getD 0)).isDst
+      | some true => a.offset = r.dstOff ∧ a.isDst = true
+      | some false => a.offset = r.stdOff ∧ a.isDst = false
+
+/-- the literal shape implies the column-wise one -/
+def extendedBy_keys_statement : Prop :=
+  ∀ (z : Zone) (r : Rule) (rec : List Transition) (y0 : Int) (dstTi stdTi : Nat),
+    ExtendedBy z r rec y0 dstTi stdTi → ExtendedKeys z r rec y0 dstTi stdTi
+
+/-- with the literal shape and `CivilCols`, two generated entries of the same type coincide -/
+def extendedBy_degenerate_statement : Prop :=
+  ∀ (z : Zone) (r : Rule) (rec : List Transition) (y0 : Int) (dstTi stdTi : Nat),
+    TableWF z → CivilCols z → ExtendedBy z r rec y0 dstTi stdTi →
+    ∀ x y, x ∈ z.transitions.toList.drop rec.length → y ∈ z.transitions.toList.drop rec.length →
+      x.typeIndex = y.typeIndex → x = y
+
+/-! ## proofs (helper lemmas: Cctz/Proofs/RuleGlue.lean, RgOrder.lean, RgTable.lean) -/
+
+theorem isRuleInstant_iff (r : Rule) (gs : DateInGrammar r.sd) (ge : DateInGrammar r.ed)
+    (y a : Int) (kind : Bool) :
+    IsRuleInstant r y a kind ↔
+      Rg.IsK (Rg.inst r.sd r.st r.stdOff) (Rg.inst r.ed r.et r.dstOff) y a kind := by
+  unfold IsRuleInstant Rg.IsK
+  rw [Rg.ruleInstant_some _ _ _ _ gs, Rg.ruleInstant_some _ _ _ _ ge]
+  simp only [Option.some.injEq]
+  rw [eq_comm (b := a), eq_comm (b := a)]
+
+theorem ruleKindAt_iff (r : Rule) (gs : DateInGrammar r.sd) (ge : DateInGrammar r.ed)
+    (y0 L t : Int) (k : Option Bool) :
+    RuleKindAt r y0 L t k ↔
+      Rg.KindAt (Rg.inst r.sd r.st r.stdOff) (Rg.inst r.ed r.et r.dstOff) y0 L t k := by
+  unfold RuleKindAt Rg.KindAt
+  cases k <;> simp only [isRuleInstant_iff r gs ge]
+
+/-- the year pairs over the total instant functions -/
+theorem yearPairs_eq (r : Rule) (gs : DateInGrammar r.sd) (ge : DateInGrammar r.ed)
+    (rec : List Transition) (y0 : Int) (dstTi stdTi : Nat) :
+    ((List.range 402).flatMap (fun (k : Nat) =>
+      C01Rule.yearPair { dstStart := ⟨some r.sd, some r.st⟩, dstEnd := ⟨some r.ed, some r.et⟩ } dstTi stdTi
+        ((rec.getLast?.map (·.unixTime)).getD 0) r.stdOff r.dstOff (y0 + (k : Int)))) =
+    Rg.genList (Rg.inst r.sd r.st r.stdOff) (Rg.inst r.ed r.et r.dstOff) dstTi stdTi (Rg.lastTime rec) y0 := by
+  unfold Rg.genList
+  congr 1
+  funext k
+  rw [C01Rule.yearPair_eq _ dstTi stdTi _ r.stdOff r.dstOff r.sd r.ed r.st r.et rfl rfl]
+  unfold Ru.yearPairL
+  rw [Rg.ruleInstant_some _ _ _ _ gs, Rg.ruleInstant_some _ _ _ _ ge]
+  rfl
+
+theorem extendedBy_keys : extendedBy_keys_statement := by
+  intro z r rec y0 dstTi stdTi ⟨h1, h2, h3, h4⟩
+  exact ⟨h1, h2, ⟨_, h3, rfl⟩, h4⟩
+
+theorem lookup_follows_rule_partial : lookup_follows_rule_partial_statement := by
+  intro z r rec y0 dstTi stdTi h t wf cc hx hreg ht
+  obtain ⟨hrec, hext, ⟨gen, hl, hkeys⟩, hdo, hdd, hso, hsd, gs, ge⟩ := hx
+  rw [yearPairs_eq r gs ge] at hkeys
+  obtain ⟨k, hk, ho, hd⟩ := Rg.glue_core z rec _ _ (Rg.inst_per r.sd r.st r.stdOff gs)
+    (Rg.inst_per r.ed r.et r.dstOff ge) y0 dstTi stdTi h t wf cc hrec hext gen hl hkeys
+    (Rg.reg_of_regular gs ge hreg) ht
+  refine ⟨k, (ruleKindAt_iff r gs ge _ _ _ _).2 hk, ?_⟩
+  match k with
+  | none => exact ⟨ho, hd⟩
+  | some true => exact ⟨by rw [ho]; exact hdo, by rw [hd]; exact hdd⟩
+  | some false => exact ⟨by rw [ho]; exact hso, by rw [hd]; exact hsd⟩
+
+theorem extendedBy_degenerate : extendedBy_degenerate_statement := by
+  intro z r rec y0 dstTi stdTi wf cc hx x y hxm hym hty
+  obtain ⟨_, _, hl, _, _, _, _, gs, ge⟩ := hx
+  rw [yearPairs_eq r gs ge] at hl
+  rw [hl, List.drop_left] at hxm hym
+  -- a generated entry has the default civil column, whose second number is 0
+  have key : ∀ w, w ∈ Rg.genList (Rg.inst r.sd r.st r.stdOff) (Rg.inst r.ed r.et r.dstOff) dstTi stdTi
+      (Rg.lastTime rec) y0 → w.unixTime + (typ z w.typeIndex).utcOffset = 0 ∧
+        w = { unixTime := w.unixTime, typeIndex := w.typeIndex } := by
+    intro w hw
+    obtain ⟨i, hi, e⟩ := Rg.mem_trn z w (by rw [hl]; exact List.mem_append_right _ hw)
+    have hc := (cc.civ i hi).2
+    unfold timeOf offOf at hc
+    rw [e] at hc
+    obtain ⟨yy, _, _, hh | hh⟩ := (Rg.mem_genList _ _ _ _ _ _ _).1 hw
+    · rw [hh.1] at hc ⊢
+      exact ⟨by have : secNum (⟨1970, 1, 1, 0, 0, 0⟩ : Fields) = 0 := by decide
+                rw [this] at hc; omega, rfl⟩
+    · rw [hh.1] at hc ⊢
+      exact ⟨by have : secNum (⟨1970, 1, 1, 0, 0, 0⟩ : Fields) = 0 := by decide
+                rw [this] at hc; omega, rfl⟩
+  obtain ⟨hx0, hxe⟩ := key x hxm
+  obtain ⟨hy0, hye⟩ := key y hym
+  rw [hxe, hye]
+  rw [hty] at hx0
+  have : x.unixTime = y.unixTime := by omega
+  rw [this, hty]
+
+/-! ## the full statement is false -/
+
+/-- the rule of the counterexample: `N0/0,N100/0`, standard offset 0, daylight offset 3600 -/
+def ceRule : Rule := ⟨Rg.ce1Start, 0, Rg.ce1End, 0, 0, 3600⟩
+
+/-- the hypotheses of the full statement hold for the one-entry table `Rg.ce1` with the years
+1000 … 1401 tabulated (nothing is generated) -/
+theorem ce_extendedBy : ExtendedBy Rg.ce1 ceRule (Rg.fill Rg.ce1Types 0 [(0, 1)]) 1000 2 1 := by
+  refine ⟨by decide, rfl, ?_, rfl, rfl, rfl, rfl, ?_, ?_⟩
+  · show Rg.ce1.transitions.toList = _ ++ (List.range 402).flatMap fun (k : Nat) =>
+      C01Rule.yearPair { dstStart := ⟨some Rg.ce1Start, some 0⟩, dstEnd := ⟨some Rg.ce1End, some 0⟩ } 2 1
+        0 0 3600 (1000 + (k : Int))
+    rw [Rg.ce1_gen_empty, List.append_nil, Rg.ce1_list]
+  · show DateInGrammar Rg.ce1Start
+    unfold DateInGrammar Rg.ce1Start; decide
+  · show DateInGrammar Rg.ce1End
+    unfold DateInGrammar Rg.ce1End; decide
+
+theorem lookup_follows_rule_counterexample : ¬ lookup_follows_rule_statement := by
+  intro hst
+  obtain ⟨k, hk, ha⟩ := hst Rg.ce1 ceRule (Rg.fill Rg.ce1Types 0 [(0, 1)]) 1000 2 1 0 1000000000
+    Rg.ce1_wf Rg.ce1_cols ce_extendedBy (by decide)
+  have hoff := Rg.ce1_answer
+  match k with
+  | none =>
+    exact hk 2000 946684800 true (by decide) (Or.inl ⟨rfl, Rg.ce1_instant⟩) ⟨by decide, by decide⟩
+  | some true =>
+    have h1 : (breakTime Rg.ce1 0 1000000000).val.1.offset = 3600 := ha.1
+    rw [hoff] at h1
+    exact absurd h1 (by decide)
+  | some false =>
+    have h1 : (breakTime Rg.ce1 0 1000000000).val.1.offset = 0 := ha.1
+    rw [hoff] at h1
+    exact absurd h1 (by decide)
+
 end Cctz.C01Glue
